@@ -230,8 +230,8 @@ def run(ctx):
     pr, pw = _path_exprs(ctx, rd), _path_exprs(ctx, wr)
     for role in ("hash", "companion", "home"):
         if role not in pr or role not in pw:
-            ctx.bad("R1", "%s path expression" % role, rd.where(), "the %s expression was not found in %s" % (
-                role, "reader" if role not in pr else "writer"), "MachineModel", "cache %s expression" % role)
+            ctx.unknown("R1", "%s path expression" % role, rd.where(), "the %s expression was not found in %s" % (
+                role, "reader" if role not in pr else "writer"))
             continue
         a = pr[role].replace(rd.params()[1], "FILE")
         b = pw[role].replace(wr.params()[1], "FILE")
